@@ -68,6 +68,9 @@ def behaviours(ctx, tier):
     # a session whose program really calls C code: the daemon starts (and afterwards reaps) a co-process for it,
     # so the sessions that follow it meet whatever process-wide state that start / teardown left behind
     B["exec_ffi"] = [("send", vmd.frame(M["LOAD_EXEC"], ctx.mods["s_extern"])), ("recv_all",)]
+    # a hostile but well-formed module whose C call kills the session's co-process (extern abort()): the daemon must
+    # report the failed call to that client and go on serving
+    B["exec_ffi_kills_coprocess"] = [("send", vmd.frame(M["LOAD_EXEC"], ctx.mods["s_copdeath"])), ("recv_all",)]
     B["ping"] = [("send", vmd.frame(M["PING"])), ("recv_all",)]
     B["status"] = [("send", vmd.frame(M["STATUS"])), ("recv_all",)]
     B["connect_close"] = [("close",)]
@@ -185,7 +188,7 @@ def run(tier):
     plain = common.build_tree("plain")
     mc = vmd.build_mc(plain)
     work = os.path.join(common.scratch(), "c18")
-    mods = vmd.compile_corpus(plain, os.path.join(work, "mods"))
+    mods = vmd.compile_corpus(plain, os.path.join(work, "mods"), extra_sources=sorted(glob.glob(os.path.join(common.VERIF, "vf/corpus_c18/*.nano"))))
     ctx = Ctx(mods)
     B = behaviours(ctx, tier)
     names = list(B)
@@ -385,7 +388,7 @@ def replay(path):
     asan = common.build_tree("asan")
     plain = common.build_tree("plain")
     work = os.path.join(common.scratch(), "c18r")
-    mods = vmd.compile_corpus(plain, os.path.join(work, "mods"))
+    mods = vmd.compile_corpus(plain, os.path.join(work, "mods"), extra_sources=sorted(glob.glob(os.path.join(common.VERIF, "vf/corpus_c18/*.nano"))))
     ctx = Ctx(mods)
     B = behaviours(ctx, "thorough")
     sq = open(os.path.join(path, "sequence.txt")).read().split()
